@@ -26,6 +26,7 @@ func init() {
 		Rule{ID: "R15e", Doc: "only the client limiter is keyed by (masked) address", Floor: 5, Run: r15e},
 		Rule{ID: "R15f", Doc: "bucket garbage collection only drops idle buckets", Floor: 3, Run: r15f},
 		Rule{ID: "R15g", Doc: "limiter options are wired from the same-named configuration fields", Floor: 3, Run: rWiring("app/router", "internal/limiter")},
+		Rule{ID: "R15h", Doc: "the client's bucket is charged last: no other limit refuses after it admitted", Floor: 1, Run: r15h},
 	)
 }
 
